@@ -13,9 +13,9 @@ EXTENDS Gradual, Json
 
 CONSTANTS Modes, MaxLen, MaxCalls, KnownOn
 
-VARIABLES api, mode, objs, g, virt, pv, last, hist, obsHist
+VARIABLES api, mode, xf, objs, g, virt, pv, last, hist, obsHist
 
-vars == <<api, mode, objs, g, virt, pv, last, hist, obsHist>>
+vars == <<api, mode, xf, objs, g, virt, pv, last, hist, obsHist>>
 
 Obj(k, r, t, d) == [k |-> k, rep |-> r, ticks |-> t, dur |-> d]
 
@@ -27,7 +27,9 @@ Alphabet(m) ==
 
 Maps(m) == UNION { [1..n -> Alphabet(m)] : n \in 0..MaxLen }
 
-WS == Units(mode, objs)
+(* xf = "HO": the mania HoldOff mod turns every hold note into a note before anything is counted *)
+UnitsX(m, x, os) == IF x = "HO" THEN [i \in 1..Len(os) |-> <<0, 0, 1, 0, 0>>] ELSE Units(m, os)
+WS == UnitsX(mode, xf, objs)
 Len0 == LenOf(mode, WS, New(mode, WS))            \* announced on creation
 CAP == MaxLen * 4 + 8                              \* any position beyond the end is the same
 
@@ -35,8 +37,9 @@ Calls == {<<"next", 0>>} \cup {<<"nth", n>> : n \in {0, 1, 2, MAXN}}
 
 Init == /\ api \in {"diff", "perf"}
         /\ mode \in Modes
+        /\ xf \in (IF mode = "mania" THEN {"none", "HO"} ELSE {"none"})
         /\ objs \in Maps(mode)
-        /\ g = New(mode, Units(mode, objs))
+        /\ g = New(mode, UnitsX(mode, xf, objs))
         /\ virt = 0
         /\ pv = 0
         /\ last = [some |-> TRUE, fresh |-> TRUE]
@@ -66,7 +69,7 @@ Step(c) ==
   /\ last' = [some |-> r.some, fresh |-> FALSE]
   /\ hist' = Append(hist, c)
   /\ obsHist' = Append(obsHist, Entry(c, r, VirtAfter(c), virt))
-  /\ UNCHANGED <<api, mode, objs>>
+  /\ UNCHANGED <<api, mode, xf, objs>>
 
 Next == /\ Len(hist) < MaxCalls
         /\ ~g.panic
@@ -129,12 +132,15 @@ AlgebraInv == CountAlgebraOk
 
 -----------------------------------------------------------------------------
 (* Scenario printer: one line per distinct state (hist is hidden by VIEW). *)
-StateView == <<api, mode, objs, g, virt, pv, last>>
+StateView == <<api, mode, xf, objs, g, virt, pv, last>>
 
 SuccOf == { Entry(c, Call(g, c), VirtAfter(c), virt) :
               c \in {c \in Calls : (api = "perf" => c[1] = "nth") /\ ~g.panic} }
 
-Scenario == [api |-> api, mode |-> mode, objs |-> objs, units |-> WS, path |-> obsHist,
+Algebra == [n \in 1..(Len(WS) + 3) |-> OneShot(mode, WS, n - 1).cnt]     \* counts for passed_objects(0 .. total+2)
+
+Scenario == [api |-> api, mode |-> mode, xf |-> xf, objs |-> objs, units |-> WS, path |-> obsHist,
+             algebra |-> IF hist = <<>> THEN Algebra ELSE <<>>,
              succ |-> IF Len(hist) < MaxCalls THEN SuccOf ELSE {},
              total |-> T, len0 |-> Len0, virt |-> virt, flags |-> Flags, known |-> Known]
 
